@@ -930,7 +930,7 @@ def _memo_fixture():
 # C17  raise inventory, builtin-method lint
 
 
-def exc_class_of(p: Program, fi: FuncInfo, node: ast.Raise):
+def exc_class_of(p: Program, fi: FuncInfo, node: ast.Raise, _depth: int = 0):
     e = node.exc
     if e is None:
         return "re-raise"
@@ -941,6 +941,26 @@ def exc_class_of(p: Program, fi: FuncInfo, node: ast.Raise):
             inner = e.args[0]
             e = inner
             f = inner.func if isinstance(inner, ast.Call) else inner
+        # raise self._mismatch(...) / raise _mismatch(...): an error factory -- what its returns construct
+        g = None
+        if isinstance(f, ast.Attribute) and isinstance(f.value, ast.Name) and fi.node.args.args and f.value.id == fi.node.args.args[0].arg and fi.owner is not None:
+            _, g = p.class_attr_def(fi.owner, f.attr)
+        elif isinstance(f, ast.Name):
+            g = p.resolve_expr(fi.module, f)
+        if isinstance(g, FuncInfo) and _depth < 3:
+            made = []
+            for n in ast.walk(g.node):
+                if isinstance(n, ast.Return) and n.value is not None:
+                    fake = ast.Raise(exc=n.value, cause=None)
+                    made.append(exc_class_of(p, g, fake, _depth + 1))
+            classes = [c for c in made if isinstance(c, ClassInfo)]
+            if made and len(classes) == len(made):
+                # the least specific of what the factory may build decides
+                for c in classes:
+                    if all(p.is_subclass(d, c) for d in classes):
+                        return c
+                return classes[0]
+            return made[0] if made else None
         r = p.resolve_expr(fi.module, f)
         return r
     return p.resolve_expr(fi.module, e)
@@ -979,7 +999,7 @@ def raise_inventory(ctx, rule: str):
                 r.ob(rule + ".match-raises", "%s@%s" % (fi.qualname, _norm_stmt(fi.module.segment(node))), ok,
                      "an invalid record must surface as InvalidSequence (is_valid turns exactly that into False); this raises %s"
                      % (cls.qualname if isinstance(cls, ClassInfo) else cls), "%s:%d" % (fi.module.relpath, node.lineno))
-    r.floor(rule + ".match-raises", 2)
+    r.floor(rule + ".match-raises", 1)  # the structure mismatch; the illegal-site screen may share a helper
     # is_valid's handler
     iv = p.get_func("moclo.core._structured.StructuredRecord.is_valid")
     handlers = [h for n in ast.walk(iv.node) if isinstance(n, ast.Try) for h in n.handlers]
